@@ -10,6 +10,8 @@ import corerun
 
 ID = 'C20'
 THEOREMS = [
+    'Sourcer.C20_renaming_changes_only_names',
+    'Sourcer.C20_injective_renaming_keeps_classes_apart',
     'Sourcer.C01_codegen_refines_peg',
     'Sourcer.C10_span_exact',
 ]
@@ -135,7 +137,7 @@ def outcome(mod, text, inverse, names=None):
             return ('X-entry', type(exc).__name__)
     else:
         entry = mod.parse
-    r, raw = realrun.run_real_api(entry, text, 0, True, limit=2.0)
+    r, raw = realrun.run_real_api(entry, text, 0, True, limit=2.0, _retry=False)   # CPU-time limit; hangs here are the builtin-shadowing findings
     if r[0] == 'V':
         return ('V', show(raw, inverse))
     if r[0] == 'P':
